@@ -257,7 +257,7 @@ func HarnessC16Damage() {
 // intact.
 func HarnessC16LongRun() {
 	base := 253
-	if vParam("runs", 1) == 2 && vBool() {
+	if vParam("runs", 1) == 2 && vChoose(2) == 1 {
 		base = 507
 	}
 	run := base + vChoose(3)
